@@ -112,7 +112,9 @@ pub fn build_q(kind: Kind, n: usize, compressed: bool, opt: OptAt, fillers: [usi
     };
     for i in 0..=n_ar {
         if i == opt_index {
-            a.root().u16(T_OPT).u16(4096).u32(OPT_ID).u16(8).u16(10).u16(4).raw(&[1, 2, 3, 4]);
+            // (an OPT record whose data is longer than its own offset in the packet, now and then)
+            let ol = *rng.pick(&[4usize, 4, 64, 200]);
+            a.root().u16(T_OPT).u16(4096).u32(OPT_ID).u16((4 + ol) as u16).u16(10).u16(ol as u16).raw(&vec![7u8; ol]);
         }
         if i < n_ar {
             let ttl = if s == 2 && kind != Kind::Question { (i + 1) as u32 } else { 0x7000_2000 + i as u32 };
@@ -424,5 +426,32 @@ pub fn run(ctx: &mut Ctx) {
         };
         ctx.cover(&format!("rand|{:?}|n{}|d{}", kind, ids.len() / 8, dset.len() * 8 / ids.len().max(1)));
         one(ctx, &x, kind, &dset, &format!("{:?} n={}", kind, ids.len()));
+    }
+    // packets that are, and stay, larger than 65535 bytes (two 33000-byte records in a section that is not walked)
+    let nhuge = ctx.scaled(if ctx.tier == "thorough" { 2_000 } else { 96 });
+    for case in ctx.phase("above-65535", nhuge) {
+        if case % 16 == 0 && ctx.out_of_time() {
+            break;
+        }
+        ctx.begin_case(case);
+        let mut rng = Rng::for_case(ctx.seed, "c11-huge", 0, case);
+        let kind = *rng.pick(&kinds);
+        let n = rng.range(1, 5);
+        let x0 = build(kind, n, false, *rng.pick(&opts), [1, 1, 1], &mut rng);
+        let mut m = match refparse(&x0, RELAXED) {
+            Ok(d) => d.msg,
+            Err(_) => continue,
+        };
+        let s = if kind == Kind::Answer { 1 } else { 0 };
+        for i in 0..2 {
+            let at = if rng.chance(1, 2) { 0 } else { m.sec[s].len() };
+            m.sec[s].insert(at, Record { name: Name::from_labels(&[b"big"]), rtype: T_TXT, class: 1, ttl: 0x7100_0000 + i, rdata: RData::Opaque(vec![0x3f; 33_000]) });
+        }
+        let x = m.encode_literal();
+        let ids = ids_of(&m, kind);
+        let dset: Vec<u32> = ids.iter().copied().filter(|_| rng.chance(1, 2)).collect();
+        ctx.count("walks_on_packets_above_65535");
+        ctx.cover(&format!("huge|{:?}|d{}", kind, dset.len()));
+        one(ctx, &x, kind, &dset, &format!("{:?} n={} (packet of {} bytes)", kind, ids.len(), x.len()));
     }
 }
